@@ -66,14 +66,14 @@ def replay_elem(r):
 
 
 STRUCT_PROVED = {"Tensor_Transpose_Property", "Transpose", "MoveAxis", "SwapAxes", "Roll", "Reshape", "Flatten", "Ravel", "Squeeze", "ExpandDims",
-                 "AtLeast1D", "AtLeast2D", "AtLeast3D", "BroadcastTo"}
+                 "AtLeast1D", "AtLeast2D", "AtLeast3D", "BroadcastTo", "Concatenate", "Stack"}
 
 
 def replay_struct(r):
     meta = r.meta
     if meta.get("kind") == "lemma":
         return None, False, "arithmetic lemma: no input of the library involved"
-    spec = dict(op=meta["op"], rank=meta["rank"], args=meta.get("args", "()"), ones=meta.get("ones", []), model=r.model, mode="forward" if meta.get("kind") == "forward" else "vjp")
+    spec = dict(op=meta["op"], rank=meta["rank"], args=meta.get("args", "()"), ones=meta.get("ones", []), model=r.model, mode="forward" if meta.get("kind") in ("forward", "join-forward") else "vjp")
     env = dict(os.environ, PYTHONPATH=os.path.join(REPO, "src") + os.pathsep + VERIF)
     p = subprocess.run([VENV_PY, os.path.join(VERIF, "runtime", "c02_struct_replay.py"), json.dumps(spec, default=str)], capture_output=True, text=True, env=env, timeout=300)
     lines = [l for l in p.stdout.splitlines() if l.startswith("{")]
@@ -145,8 +145,8 @@ def run(tier, seed):
     ]
     rep.extra["explanation"] = (
         "Mixed level: %d elementwise/activation VJP+frame+alias obligations discharged deductively by PyVC (symbolic execution of the "
-        "real __call__/backward_var ASTs, z3 NRA) for all real inputs; %d obligations on the 14 rearrangement operations (transpose family, roll, "
-        "reshape family, broadcast_to) discharged in the index-function domain for symbolic extents; the remaining non-elementwise kernels are checked by a bounded run-time "
+        "real __call__/backward_var ASTs, z3 NRA) for all real inputs; %d obligations on the 16 rearrangement / joining operations (transpose family, roll, "
+        "reshape family, broadcast_to, concatenate, stack) discharged in the index-function domain for symbolic extents; the remaining non-elementwise kernels are checked by a bounded run-time "
         "VJP contract over an enumerated catalogue (counted separately, never as proved); a complete AST enumeration shows every "
         "Operation subclass falls under one of the two." % (sum(1 for r in results if r.status == "discharged"), sum(1 for r in sresults if r.status == "discharged"))
     )
